@@ -36,6 +36,9 @@ VALIDFMTKW = z3.Function("py_validfmtkw", StrS, StrS, BoolS)
 FMTRES = z3.Function("py_format_result", StrS, IntS, StrS)
 FIRSTFIELD = z3.Function("py_firstfield", StrS, StrS)
 LASTPIECE = z3.Function("py_lastpiece", StrS, StrS, StrS)
+JOINSEP = z3.Function("py_join_sep", z3.ArraySort(IntS, StrS), IntS, StrS, StrS)
+# prefix function of a split: SPLITPRE(pieces, i, sep) = pieces[0] + sep + ... + pieces[i-1] + sep
+SPLITPRE = z3.Function("py_splitpre", z3.ArraySort(IntS, StrS), IntS, StrS, StrS)
 WC = z3.Function("spec_write_continue_output", StrS, IntS, StrS, StrS)
 JOINPRE = z3.Function("py_joinpre", z3.ArraySort(IntS, StrS), IntS, StrS)
 ISDIGIT = z3.Function("py_isdigit", StrS, BoolS)
@@ -195,6 +198,10 @@ class MethodsMixin(object):
                                  "frame lemma JOINPRE(store(arr,n,x),i)==JOINPRE(arr,i) for i<=n (induction on i)")
             st.assume(JOINPRE(cell.arr, 0) == S(""))
             return JOINPRE(cell.arr, cell.n)
+        if z3.is_string_value(sep):
+            # sep.join(list) with a non-empty constant separator: abstract, a function of (elements, length, sep)
+            self.assumptions.add("sep.join(list) for a non-empty separator is an uninterpreted function of the list")
+            return JOINSEP(cell.arr, cell.n, sep)
         raise OutOfSubset("join with a separator over a symbolic list")
 
     JOINF = {}
@@ -268,6 +275,12 @@ class MethodsMixin(object):
             st.assume(z3.Implies(z3.Not(z3.Contains(s, sep)), z3.And(n == 1, z3.Select(arr, 0) == s)))
             self.assumptions.add("str.split(sep): pieces are non-overlapping, >= 1 piece, none contains sep, and a string without sep is its own single piece (other properties of split left abstract)")
             st.assume(z3.Select(arr, n - 1) == LASTPIECE(s, sep))
+            # reconstruction: s == pieces[0] + sep + ... + sep + pieces[n-1]
+            st.assume(SPLITPRE(arr, 0, sep) == S(""))
+            st.assume(s == z3.Concat(SPLITPRE(arr, n - 1, sep), z3.Select(arr, n - 1)))
+            st.qf.append(QFact(z3.IntVal(0), n - 1, lambda i, arr=arr, sep=sep: SPLITPRE(arr, i + 1, sep) == z3.Concat(
+                SPLITPRE(arr, i, sep), z3.Select(arr, i), sep), "split-prefix"))
+            st.terms.append(n - 1)
         else:
             st.assume(n >= 0)
             st.assume((n == 0) == ALLWS(s))
@@ -445,8 +458,12 @@ class MethodsMixin(object):
         if cell.cls == "Tree" and name == "update":
             return VFun("Tree.update", lambda ex, st, args, kw, node: VNone())
         if cell.cls == "Tree" and name == "setdefault":
-            # abstract nested-dict navigation: a child node (identity abstracted)
-            return VFun("Tree.setdefault", lambda ex, st, args, kw, node: st.alloc(HObj("Tree", {})))
+            # abstract nested-dict navigation: a child node; its ghost `path` is the parent's path + key + "."
+            def m_tsd(ex, st, args, kw, node, cell=cell):
+                key = self.want_str(args[0], st, node)
+                ppath = cell.f["path"].e if "path" in cell.f else S("")
+                return st.alloc(HObj("Tree", {"path": VStr(z3.Concat(ppath, key, S(".")))}))
+            return VFun("Tree.setdefault", m_tsd)
         key = (cell.cls, name)
         if key in self.method_contracts:
             return self.method_contracts[key](ref)
@@ -779,6 +796,11 @@ class MethodsMixin(object):
         def sf_validfmt(node, st):
             return VBool(VALIDFMT(self.ev(node.args[0], st).e, self.ev(node.args[1], st).e))
 
+        def sf_splitpre(node, st):
+            lst = self.ev(node.args[0], st)
+            c = self.as_hlist(st.heap[lst.oid])
+            return VStr(SPLITPRE(c.arr, self.ev(node.args[1], st).e, self.ev(node.args[2], st).e))
+
         def sf_validfmtkw(node, st):
             return VBool(VALIDFMTKW(self.ev(node.args[0], st).e, self.ev(node.args[1], st).e))
 
@@ -805,7 +827,7 @@ class MethodsMixin(object):
         def sf_isdigit(node, st):
             return VBool(ISDIGIT(self.want_str(self.ev(node.args[0], st), st, node)))
 
-        return dict(isdigit_=sf_isdigit, intok=sf_intok, toint=sf_toint, evalv=sf_evalv, eval_plus=sf_eval_plus, validfmt=sf_validfmt, validfmtkw=sf_validfmtkw, wfmt=sf_wfmt, same_except=sf_same_except, isnone=sf_isnone, isbool=sf_isbool, firstfield=sf_firstfield, lastpiece=sf_lastpiece, isint=sf_isint, isstr=sf_isstr, asstr=sf_asstr, WC=sf_wc, code=_sf_code(self), all=sf_all, old=sf_old, implies=sf_implies, iff=sf_iff, allws=sf_allws,
+        return dict(isdigit_=sf_isdigit, intok=sf_intok, toint=sf_toint, evalv=sf_evalv, eval_plus=sf_eval_plus, validfmt=sf_validfmt, validfmtkw=sf_validfmtkw, splitpre=sf_splitpre, wfmt=sf_wfmt, same_except=sf_same_except, isnone=sf_isnone, isbool=sf_isbool, firstfield=sf_firstfield, lastpiece=sf_lastpiece, isint=sf_isint, isstr=sf_isstr, asstr=sf_asstr, WC=sf_wc, code=_sf_code(self), all=sf_all, old=sf_old, implies=sf_implies, iff=sf_iff, allws=sf_allws,
                     lstrip=sf_lstrip, rstrip=sf_rstrip)
 
 
